@@ -52,6 +52,15 @@ def native_violation(modname, x, fopts, vopts=None, today=None):
     fx = call_real(q + ':format', [x], fopts, today)
     if fx[0] != 'return':
         return 'format(x) raises %s' % fx[1]
+    if modname == 'stdnum.meid':
+        # documented: validate() drops the check digit (and shows decimal numbers in hexadecimal); what must hold whatever
+        # the presentation: the formatted text is accepted and denotes the same 56 bits
+        import stdnum.meid
+        vf0 = call_real(q + ':validate', [fx[1]], vopts, today)
+        if vf0[0] != 'return':
+            return 'validate(format(x)) raises %s for format(x)=%r' % (vf0[1], fx[1])
+        if stdnum.meid.to_binary(vf0[1]) != stdnum.meid.to_binary(v):
+            return 'validate(format(x)) denotes another MEID: %r vs %r' % (vf0[1], v)
     fv = call_real(q + ':format', [v], fopts, today)
     if fv[0] != 'return':
         return 'format(validate(x)) raises %s' % fv[1]
@@ -82,6 +91,10 @@ def native_violation(modname, x, fopts, vopts=None, today=None):
         elif modname in ('stdnum.isan', 'stdnum.meid'):
             import stdnum.isan
             import stdnum.meid
+            if modname == 'stdnum.meid' and fopts.get('format'):
+                # converted between the hexadecimal and the decimal representation: the same 56 bits
+                same = stdnum.meid.to_binary(vf[1]) == stdnum.meid.to_binary(v)
+                return None if same else 'MEID identity changed by the conversion: %r vs %r' % (vf[1], v)
             a = importlib.import_module(modname).compact(vf[1]) if modname == 'stdnum.isan' else vf[1]
             b = importlib.import_module(modname).compact(v) if modname == 'stdnum.isan' else v
             if modname == 'stdnum.isan':
@@ -174,23 +187,60 @@ def _task(arg):
         return dict(module=modname, crash='%s: %s' % (type(e).__name__, str(e)[:200]), tb=traceback.format_exc()[-1200:])
 
 
+def native_format_options(modname):
+    """option valuations of format() for the bounded native run: the listed ones plus what the signature offers (separator='',
+    flags flipped, the representation argument of meid)"""
+    import inspect
+    out = [dict(o) for o in FORMAT_OPTS.get(modname, [dict()])]
+    try:
+        ps = list(inspect.signature(importlib.import_module(modname).format).parameters.values())[1:]
+    except (TypeError, ValueError):
+        return out
+    for p_ in ps:
+        if p_.name == 'separator':
+            out.append(dict(separator=''))
+        elif isinstance(p_.default, bool):
+            out.append({p_.name: not p_.default})
+        elif p_.name == 'format' and modname == 'stdnum.meid':
+            out += [dict(format='hex'), dict(format='dec'), dict(format='hex', add_check_digit=True), dict(format='dec', add_check_digit=True)]
+    uniq = []
+    for o in out:
+        if o not in uniq:
+            uniq.append(o)
+    return uniq
+
+
 def bounded_native(rep, mods, tier):
     """bounded stand-in on the corpus (all presentations found in the doctests), including the documented
     normalisations and the option variants that change the number"""
     t0 = time.time()
     n = 0
+    seen_keys = set()
     for m in mods:
-        for fopts in FORMAT_OPTS.get(m, [dict()]):
-            for x in corpus.valid_numbers(m, 15 if tier == 'quick' else 40) + corpus.synth_valid(m, 40 if tier == 'quick' else 400, int(os.environ.get('VERIF_SEED', '0') or 0)):
+        allopts = native_format_options(m)
+        base = corpus.valid_numbers(m, 15 if tier == 'quick' else 40) + corpus.synth_valid(m, 40 if tier == 'quick' else 400, int(os.environ.get('VERIF_SEED', '0') or 0))
+        # what format() produces under any option valuation is itself a presentation of a valid number (e.g. with a check digit added)
+        derived = []
+        if len(allopts) > 1:
+            for x in base[:10 if tier == 'quick' else 40]:
+                for o in allopts:
+                    r_ = call_real(m + ':format', [x], o)
+                    if r_[0] == 'return' and isinstance(r_[1], str) and r_[1] not in base and r_[1] not in derived:
+                        derived.append(r_[1])
+        for fopts in allopts:
+            for x in base + derived:
                 n += 1
                 try:
                     d = native_violation(m, x, fopts)
                 except Exception as e:     # noqa: B902
                     d = None
                 if d:
-                    rep.refuted('C04/%s/corpus' % m, m, 'corpus: ' + d.split('=')[0][:60], d,
-                                dict(function=m + ':format', input=x, fopts=fopts, real=d), True, still_fails(m))
-                    break
+                    # every distinct kind of failure is reported once per module (a listed finding must not hide another one)
+                    key = 'corpus: ' + d.split('=')[0][:60]
+                    if (m, key) not in seen_keys:
+                        seen_keys.add((m, key))
+                        rep.refuted('C04/%s/corpus/%s' % (m, key[8:40]), m, key, d,
+                                    dict(function=m + ':format', input=x, fopts=fopts, real=d), True, still_fails(m))
     rep.add('C04/corpus', 'bounded', 'eval', time.time() - t0, detail='%d corpus numbers through the real format()/validate() (bounded stand-in)' % n)
 
 
